@@ -177,8 +177,10 @@ Section Sim.
 Variable p : program.
 Variable C : code.
 Variable fe : nat -> nat.
-(* every function of the program sits at its entry point *)
-Hypothesis Hfun : forall f fn, nth_error p f = Some fn -> code_at C (fe f) (compile_func fe (fe f) fn).
+Variable fr : nat -> nat.
+(* every function of the program sits at its entry point; [fr] gives the declared number of results *)
+Hypothesis Hfun : forall f fn, nth_error p f = Some fn -> code_at C (fe f) (compile_func fe fr (fe f) fn).
+Hypothesis Hfr : forall f fn, nth_error p f = Some fn -> fr f = f_nres fn.
 
 Definition expr_post (m : mode) (e : expr) (res : res val) (q : nat) (L A s : list val) (K : list frame) : Prop :=
   match res with
@@ -206,7 +208,8 @@ Definition sim_list (n : nat) : Prop := forall r es g q L A s K,
 
 Definition sim_call (n : nat) : Prop := forall f vs s K,
   match call n p f vs with
-  | Ok v => exists qr L A, nth_error C qr = Some IRet /\ star C (St (fe f) [] [] (vs ++ s) K) (St qr L A (v :: s) K)
+  | Ok rs => exists qr L A, nth_error C qr = Some IRet /\ length rs = fr f /\
+                          star C (St (fe f) [] [] (vs ++ s) K) (St qr L A (rs ++ s) K)
   | Fault => goes_wrong C (St (fe f) [] [] (vs ++ s) K)
   | _ => True
   end.
@@ -217,7 +220,7 @@ Definition out_post (o : outcome) (qn brk cont : nat) (s0 : state) (L' A' s : li
   | ONormal => star C s0 (St qn L' A' s K)
   | OBreak => star C s0 (St brk L' A' s K)
   | OContinue => star C s0 (St cont L' A' s K)
-  | OReturn v => exists qr, nth_error C qr = Some IRet /\ star C s0 (St qr L' A' (v :: s) K)
+  | OReturn vs => exists qr, nth_error C qr = Some IRet /\ star C s0 (St qr L' A' (vs ++ s) K)
   end.
 
 Definition stmt_post (g : cenv) (next : nat) (st : stmt) (q brk cont : nat) (L A s : list val) (K : list frame)
@@ -226,7 +229,7 @@ Definition stmt_post (g : cenv) (next : nat) (st : stmt) (q brk cont : nat) (L A
   | Ok (o, r') =>
       exists ext L' A', length L' = length L /\ length A' = length A /\ menv r' (ext ++ g) L' A' /\
         (o = ONormal -> ext ++ g = env_after g next st) /\
-        out_post o (q + size_stmt st) brk cont (St q L A s K) L' A' s K
+        out_post o (q + size_stmt fr st) brk cont (St q L A s K) L' A' s K
   | Fault => goes_wrong C (St q L A s K)
   | _ => True
   end.
@@ -244,15 +247,15 @@ Definition block_post (g : cenv) (qn q brk cont : nat) (L A s : list val) (K : l
 
 Definition sim_exec (n : nat) : Prop := forall r st g next q brk cont L A s K,
   menv r g L A -> wf g next -> next + ndecl st <= length L ->
-  code_at C q (compile_stmt fe g next q brk cont st) ->
+  code_at C q (compile_stmt fe fr g next q brk cont st) ->
   stmt_post g next st q brk cont L A s K (exec n p r st).
 
 Definition loop_code (g : cenv) (next start : nat) (c : expr) (po b : stmt) : code :=
   let pbody := start + size_expr false c + 1 in
-  let ppost := pbody + size_stmt b in
-  let endl := ppost + size_stmt po + 1 in
-  compile_expr fe g start c MVal ++ IJmpIfNot endl :: compile_stmt fe g next pbody endl ppost b
-  ++ compile_stmt fe g (next + ndecl b) ppost endl ppost po ++ [IJmp start].
+  let ppost := pbody + size_stmt fr b in
+  let endl := ppost + size_stmt fr po + 1 in
+  compile_expr fe g start c MVal ++ IJmpIfNot endl :: compile_stmt fe fr g next pbody endl ppost b
+  ++ compile_stmt fe fr g (next + ndecl b) ppost endl ppost po ++ [IJmp start].
 
 Definition sim_loop (n : nat) : Prop := forall r c po b g next start L A s K,
   menv r g L A -> wf g next -> next + ndecl b + ndecl po <= length L ->
@@ -262,8 +265,8 @@ Definition sim_loop (n : nat) : Prop := forall r c po b g next start L A s K,
       exists L' A', length L' = length L /\ length A' = length A /\ menv r' g L' A' /\
         match o with
         | ONormal => star C (St start L A s K)
-                       (St (start + size_expr false c + 1 + size_stmt b + size_stmt po + 1) L' A' s K)
-        | OReturn v => exists qr, nth_error C qr = Some IRet /\ star C (St start L A s K) (St qr L' A' (v :: s) K)
+                       (St (start + size_expr false c + 1 + size_stmt fr b + size_stmt fr po + 1) L' A' s K)
+        | OReturn vs => exists qr, nth_error C qr = Some IRet /\ star C (St start L A s K) (St qr L' A' (vs ++ s) K)
         | _ => False
         end
   | Fault => goes_wrong C (St start L A s K)
@@ -305,7 +308,7 @@ Qed.
 
 Lemma block_of_stmt g next st q brk cont L A s K res k :
   stmt_post g next st q brk cont L A s K res -> k = length g ->
-  block_post g (q + size_stmt st) q brk cont L A s K
+  block_post g (q + size_stmt fr st) q brk cont L A s K
     (bind res (fun or => Ok (fst or, truncate k (snd or)))).
 Proof.
   intros H ->. destruct res as [[o r']| | |]; simpl in *; auto.
@@ -355,6 +358,35 @@ Proof.
   destruct (nth_error p f); [|intros [[v H]|H]; discriminate].
   destruct (Nat.leb_spec (length vs) 255); auto.
   rewrite andb_false_r. intros [[v E]|E]; discriminate.
+Qed.
+
+(* arguments, reversal, CALL, the callee's RET: shared by call expressions, call statements and multiple assignments *)
+Lemma call_seq n : sim_list n -> sim_call n -> forall r es g q L A s K f,
+  menv r g L A ->
+  code_at C q (compile_args fe g q es) ->
+  code_at C (q + size_args es) (emit_reverse (length es)) ->
+  nth_error C (q + size_args es + length (emit_reverse (length es))) = Some (ICall (fe f)) ->
+  match bind (eval_list n p r es) (fun vs => call n p f vs) with
+  | Ok rs => length rs = fr f /\
+             star C (St q L A s K) (St (q + size_args es + length (emit_reverse (length es)) + 1) L A (rs ++ s) K)
+  | Fault => goes_wrong C (St q L A s K)
+  | _ => True
+  end.
+Proof.
+  intros IHl IHc r es g q L A s K f Hm Hc0 Hc1 Hi.
+  assert (IHL := IHl r es g q L A s K Hm Hc0).
+  destruct (eval_list n p r es) as [vs| | |] eqn:El; cbn [bind]; [|exact IHL|exact I|exact I].
+  pose proof (eval_list_length _ _ _ _ El) as Hlen. rewrite <- Hlen in Hc1, Hi. rewrite <- Hlen.
+  assert (IHC := IHc f vs s (Frame (S (q + size_args es + length (emit_reverse (length vs)))) L A :: K)).
+  destruct (call n p f vs) as [rs| | |] eqn:Ec; try exact I.
+  - assert (Hle : length vs <= 255) by (eapply call_args_le; left; eauto).
+    destruct IHC as (qr & L' & A' & Hret & Hnr & Hst). split; [exact Hnr|].
+    eapply star_trans; [exact IHL|]. eapply star_trans; [apply x_reverse; eauto|].
+    xthen x_call. eapply star_trans; [exact Hst|]. eapply star_eq; [eapply x_ret; exact Hret|].
+    simpl. pceq.
+  - assert (Hle : length vs <= 255) by (eapply call_args_le; right; eauto).
+    eapply goes_wrong_star; [exact IHL|]. eapply goes_wrong_star; [apply x_reverse; eauto|].
+    eapply goes_wrong_star; [xstep x_call|]. exact IHC.
 Qed.
 
 Lemma sim_expr_step n : sim_all n -> sim_expr (S n).
@@ -455,22 +487,14 @@ Proof.
         eapply star_trans; [exact IHa|]. eapply star_eq; [exact IHb|]. destruct (Bool.eqb b0 cond); pceq.
   - (* ECall *)
     rewrite compile_expr_call in Hc. split_code.
-    assert (IHL := IHl r es g q L A s K Hm Hc0).
-    destruct (eval_list n p r es) as [vs| | |] eqn:El; cbn [bind]; [|exact IHL|exact I|exact I].
-    pose proof (eval_list_length _ _ _ _ El) as Hlen. rewrite <- Hlen in Hc1, Hi, Hc.
-    assert (IHC := IHc f vs s (Frame (S (q + size_args es + length (emit_reverse (length vs)))) L A :: K)).
-    destruct (call n p f vs) as [v| | |] eqn:Ec; try exact I.
-    + assert (Hle : length vs <= 255) by (eapply call_args_le; left; eauto).
-      destruct IHC as (qr & L' & A' & Hret & Hst).
-      apply jump_tail.
-      * eapply star_trans; [exact IHL|]. eapply star_trans; [apply x_reverse; eauto|].
-        xthen x_call. eapply star_trans; [exact Hst|]. eapply star_eq; [eapply x_ret; exact Hret|].
-        rewrite size_expr_call, <- Hlen. simpl. pceq.
-      * rewrite !size_expr_call. lia.
-      * eapply tail_at; [eauto|rewrite size_expr_call, <- Hlen; simpl; lia].
-    + assert (Hle : length vs <= 255) by (eapply call_args_le; right; eauto).
-      eapply goes_wrong_star; [exact IHL|]. eapply goes_wrong_star; [apply x_reverse; eauto|].
-      eapply goes_wrong_star; [xstep x_call|]. exact IHC.
+    assert (Hcs := call_seq n IHl IHc r es g q L A s K f Hm Hc0 Hc1 Hi).
+    destruct (eval_list n p r es) as [vs| | |]; cbn [bind] in Hcs |- *; [|exact Hcs|exact I|exact I].
+    destruct (call n p f vs) as [rs| | |]; cbn [bind] in Hcs |- *; [|exact Hcs|exact I|exact I].
+    destruct rs as [|v [|v2 rs]]; try exact I. destruct Hcs as [_ Hst].
+    apply jump_tail.
+    + eapply star_eq; [exact Hst|]. rewrite size_expr_call. simpl. pceq.
+    + rewrite !size_expr_call. lia.
+    + eapply tail_at; [eauto|rewrite size_expr_call; simpl; lia].
 Qed.
 
 Lemma sim_list_step n : sim_all n -> sim_list (S n).
@@ -534,16 +558,17 @@ Proof.
   assert (IH := IHx _ (f_body fn) _ 0 (fe f + length (prologue fn)) 0 0 _ _ s K Hm (wf_params _ 0)).
   rewrite repeat_length in IH. specialize (IH (Nat.le_refl _) Hbody).
   destruct (exec n p (combine (f_params fn) vs) (f_body fn)) as [[o r']| | |]; cbn [bind]; try exact I.
-  - simpl fst. destruct o; try exact I.
+  - simpl fst. destruct o as [| | |rs]; try exact I.
+    destruct (Nat.eqb_spec (length rs) (f_nres fn)) as [Hn|]; [|exact I].
     destruct IH as (ext & L' & A' & _ & _ & _ & _ & qr & Hret & Hst).
-    exists qr, L', A'. split; auto. eapply star_trans; eauto.
+    exists qr, L', A'. split; auto. split; [rewrite (Hfr f fn Ef); exact Hn|]. eapply star_trans; eauto.
   - eapply goes_wrong_star; eauto.
 Qed.
 
 Lemma stmt_of_block g next st q q0 qn0 brk cont L A s K res :
   star C (St q L A s K) (St q0 L A s K) ->
   block_post g qn0 q0 brk cont L A s K res ->
-  (forall L' A', star C (St qn0 L' A' s K) (St (q + size_stmt st) L' A' s K)) ->
+  (forall L' A', star C (St qn0 L' A' s K) (St (q + size_stmt fr st) L' A' s K)) ->
   env_after g next st = g ->
   stmt_post g next st q brk cont L A s K res.
 Proof.
@@ -561,15 +586,79 @@ Qed.
 (* the five obligations of a successful statement *)
 Ltac ok_post ext L' A' := exists ext, L', A'; split; [|split; [|split; [|split]]].
 
+Lemma x_drops rs : forall q L A s K, code_at C q (repeat IDrop (length rs)) ->
+  star C (St q L A (rs ++ s) K) (St (q + length rs) L A s K).
+Proof.
+  induction rs as [|v rs IH]; intros q L A s K Hc; simpl in *.
+  - rewrite Nat.add_0_r. apply star_refl.
+  - apply code_at_cons in Hc. destruct Hc as [Hi Hc].
+    eapply star_trans; [eapply x_drop; exact Hi|]. eapply star_eq; [apply IH; exact Hc|]. pceq.
+Qed.
+
+Lemma x_reversen q vs L A s K :
+  nth_error C q = Some (IPush (Z.of_nat (length vs))) -> nth_error C (S q) = Some IReverseN -> length vs <= 255 ->
+  star C (St q L A (vs ++ s) K) (St (S (S q)) L A (rev vs ++ s) K).
+Proof.
+  intros H1 H2 Hle.
+  eapply star_trans; [apply x_push; [exact H1|apply fits256_small; exact Hle]|].
+  apply star_one; unfold step; simpl pc; rewrite H2; unfold exec_instr; simpl stk; cbv iota.
+  change (as_int (VInt (Z.of_nat (length vs)))) with (Some (Z.of_nat (length vs))). cbv iota beta.
+  destruct (Z.ltb_spec (Z.of_nat (length vs)) 0); [lia|]. rewrite Nat2Z.id.
+  pose proof (rev_top_rev (rev vs) s) as Hr. rewrite rev_involutive, rev_length in Hr. rewrite Hr. reflexivity.
+Qed.
+
+(* storing the results of a call into freshly declared targets / into existing ones (targets last first) *)
+Lemma stores_decl g0 : forall xs rs r g next q L A s K,
+  length rs = length xs -> menv r g L A -> wf g next -> next + count_some xs <= length L ->
+  code_at C q (store_code true g0 next xs) ->
+  exists L', length L' = length L /\ menv (decl_results xs rs r) (alloc_results g next xs) L' A /\
+             star C (St q L A (rs ++ s) K) (St (q + length xs) L' A s K).
+Proof.
+  induction xs as [|[x|] xs IH]; intros [|v rs] r g next q L A s K Hl Hm Hwf Hle Hc; simpl in *; try discriminate.
+  - exists L. split; auto. split; auto. rewrite Nat.add_0_r. apply star_refl.
+  - apply code_at_cons in Hc. destruct Hc as [Hi Hc].
+    destruct (IH rs ((x, v) :: r) ((x, SLoc next) :: g) (S next) (S q) (list_set next v L) A s K) as (L' & HL & Hm' & Hst);
+      auto; [apply menv_decl; auto; lia|apply wf_decl; auto|rewrite length_list_set; lia|].
+    exists L'. rewrite length_list_set in HL. split; auto. split; auto.
+    eapply star_trans; [apply x_stloc; [exact Hi|lia]|]. eapply star_eq; [exact Hst|]. pceq.
+  - apply code_at_cons in Hc. destruct Hc as [Hi Hc].
+    destruct (IH rs r g next (S q) L A s K) as (L' & HL & Hm' & Hst); auto.
+    exists L'. split; auto. split; auto.
+    eapply star_trans; [eapply x_drop; exact Hi|]. eapply star_eq; [exact Hst|]. pceq.
+Qed.
+
+Lemma stores_assign g next : forall xs rs r r' q L A s K,
+  length rs = length xs -> menv r g L A -> NoDup (map snd g) -> assign_results xs rs r = Some r' ->
+  code_at C q (store_code false g next xs) ->
+  exists L' A', length L' = length L /\ length A' = length A /\ menv r' g L' A' /\
+                star C (St q L A (rs ++ s) K) (St (q + length xs) L' A' s K).
+Proof.
+  induction xs as [|[x|] xs IH]; intros [|v rs] r r' q L A s K Hl Hm Hnd Ha Hc; simpl in *; try discriminate.
+  - inv Ha. exists L, A. repeat split; auto. rewrite Nat.add_0_r. apply star_refl.
+  - apply code_at_cons in Hc. destruct Hc as [Hi Hc].
+    destruct (update x v r) as [r1|] eqn:Eu; [|discriminate].
+    destruct (update_lookup _ _ _ _ Eu) as [w Hw]. destruct (menv_lookup _ _ _ _ _ _ Hm Hw) as (sl & Hsl & Hg).
+    destruct (menv_update _ _ _ _ _ _ _ _ Hm Hnd Eu Hsl) as [Hok Hm1].
+    rewrite (clookup_slot_of _ _ _ Hsl) in Hi.
+    destruct (length_slot_set sl v L A) as [E1 E2].
+    destruct (IH rs r1 r' (S q) _ _ s K ltac:(lia) Hm1 Hnd Ha Hc) as (L' & A' & HL & HA & Hm' & Hst).
+    exists L', A'. split; [lia|]. split; [lia|]. split; auto.
+    eapply star_trans; [apply x_store; [exact Hi|exact Hok]|]. eapply star_eq; [exact Hst|]. pceq.
+  - apply code_at_cons in Hc. destruct Hc as [Hi Hc].
+    destruct (IH rs r r' (S q) L A s K ltac:(lia) Hm Hnd Ha Hc) as (L' & A' & HL & HA & Hm' & Hst).
+    exists L', A'. repeat split; auto.
+    eapply star_trans; [eapply x_drop; exact Hi|]. eapply star_eq; [exact Hst|]. pceq.
+Qed.
+
 Ltac ok_same L A Hm :=
   ok_post (@nil (ident * slot)) L A;
     [reflexivity | reflexivity | exact Hm | let E := fresh in intros E; first [discriminate E | reflexivity] | simpl].
 
 Lemma sim_exec_step n : sim_all n -> sim_exec (S n).
 Proof.
-  intros (IHe & _ & _ & IHx & IHlp) r st g next q brk cont L A s K Hm Hwf Hle Hc.
+  intros (IHe & IHl & IHc & IHx & IHlp) r st g next q brk cont L A s K Hm Hwf Hle Hc.
   pose proof (menv_length _ _ _ _ Hm) as Hrg.
-  destruct st as [|a b|x e|x e|x op e|x|x|c a|c a b|i c po b| | |e|a|e]; simpl exec; simpl in Hle.
+  destruct st as [|a b|x e|x e|x op e|x|x|c a|c a b|i c po b| | |es|a|f es|decl xs f es]; simpl exec; simpl in Hle.
   - (* SSkip *)
     ok_post (@nil (ident * slot)) L A; auto. simpl. eapply star_eq; [apply star_refl|pceq].
   - (* SSeq *)
@@ -579,7 +668,7 @@ Proof.
     destruct IHa as (ext1 & L1 & A1 & HL1 & HA1 & Hm1 & Henv1 & Ho1). simpl fst; simpl snd.
     destruct o1.
     + specialize (Henv1 eq_refl). rewrite Henv1 in Hm1.
-      assert (IHb := IHx r1 b (env_after g next a) (next + ndecl a) (q + size_stmt a) brk cont L1 A1 s K
+      assert (IHb := IHx r1 b (env_after g next a) (next + ndecl a) (q + size_stmt fr a) brk cont L1 A1 s K
                          Hm1 (wf_env_after _ _ _ Hwf) ltac:(lia) Hc).
       destruct (exec n p r1 b) as [[o2 r2]| | |]; [|eapply goes_wrong_star; [exact Ho1|exact IHb]|exact I|exact I].
       destruct IHb as (ext2 & L2 & A2 & HL2 & HA2 & Hm2 & Henv2 & Ho2).
@@ -669,28 +758,28 @@ Proof.
     + simpl. xthen x_load; [eauto|]. xthen x_dec; [eauto|]. xlast x_store; [exact Hok|pceq].
   - (* SIf *)
     simpl in Hc. split_code.
-    assert (IHc := IHe r c _ g q L A s K Hm Hc0).
-    destruct (eval n p r c) as [v| | |]; cbn [bind]; [|exact IHc|exact I|exact I].
-    destruct v as [|bc|]; try exact I. specialize (IHc bc eq_refl). destruct bc; simpl in IHc.
+    assert (IHcd := IHe r c _ g q L A s K Hm Hc0).
+    destruct (eval n p r c) as [v| | |]; cbn [bind]; [|exact IHcd|exact I|exact I].
+    destruct v as [|bc|]; try exact I. specialize (IHcd bc eq_refl). destruct bc; simpl in IHcd.
     + assert (IHa := IHx r a g next (q + size_expr true c) brk cont L A s K Hm Hwf ltac:(lia) Hc).
       apply block_of_stmt with (k := length r) in IHa; [|exact Hrg].
-      eapply stmt_of_block; [exact IHc|exact IHa| |reflexivity].
+      eapply stmt_of_block; [exact IHcd|exact IHa| |reflexivity].
       intros L' A'. eapply star_eq; [apply star_refl|pceq].
-    + ok_post (@nil (ident * slot)) L A; auto. simpl. eapply star_eq; [exact IHc|pceq].
+    + ok_post (@nil (ident * slot)) L A; auto. simpl. eapply star_eq; [exact IHcd|pceq].
   - (* SIfElse *)
     simpl in Hc. split_code.
-    assert (IHc := IHe r c _ g q L A s K Hm Hc0).
-    destruct (eval n p r c) as [v| | |]; cbn [bind]; [|exact IHc|exact I|exact I].
-    destruct v as [|bc|]; try exact I. specialize (IHc bc eq_refl). destruct bc; simpl in IHc.
+    assert (IHcd := IHe r c _ g q L A s K Hm Hc0).
+    destruct (eval n p r c) as [v| | |]; cbn [bind]; [|exact IHcd|exact I|exact I].
+    destruct v as [|bc|]; try exact I. specialize (IHcd bc eq_refl). destruct bc; simpl in IHcd.
     + assert (IHa := IHx r a g next (q + size_expr true c) brk cont L A s K Hm Hwf ltac:(lia) Hc1).
       apply block_of_stmt with (k := length r) in IHa; [|exact Hrg].
-      eapply stmt_of_block; [exact IHc|exact IHa| |reflexivity].
+      eapply stmt_of_block; [exact IHcd|exact IHa| |reflexivity].
       intros L' A'. xlast x_jmp. pceq.
-    + replace (S (q + size_expr true c + size_stmt a)) with (q + size_expr true c + size_stmt a + 1) in Hc by lia.
-      assert (IHb := IHx r b g (next + ndecl a) (q + size_expr true c + size_stmt a + 1) brk cont L A s K Hm
+    + replace (S (q + size_expr true c + size_stmt fr a)) with (q + size_expr true c + size_stmt fr a + 1) in Hc by lia.
+      assert (IHb := IHx r b g (next + ndecl a) (q + size_expr true c + size_stmt fr a + 1) brk cont L A s K Hm
                          (wf_mono g next (next + ndecl a) Hwf ltac:(lia)) ltac:(lia) Hc).
       apply block_of_stmt with (k := length r) in IHb; [|exact Hrg].
-      eapply stmt_of_block; [exact IHc|exact IHb| |reflexivity].
+      eapply stmt_of_block; [exact IHcd|exact IHb| |reflexivity].
       intros L' A'. eapply star_eq; [apply star_refl|pceq].
   - (* SFor *)
     simpl in Hc. apply code_at_app in Hc. destruct Hc as [Hci Hloop]. rewrite length_compile_stmt in Hloop.
@@ -698,7 +787,7 @@ Proof.
     destruct (exec n p r i) as [[oi r1]| | |]; cbn [bind]; [|exact IHi|exact I|exact I].
     destruct IHi as (ext1 & L1 & A1 & HL1 & HA1 & Hm1 & Henv1 & Ho1). simpl fst; simpl snd.
     destruct oi; try exact I. specialize (Henv1 eq_refl). rewrite Henv1 in Hm1. simpl in Ho1.
-    assert (IHL := IHlp r1 c po b (env_after g next i) (next + ndecl i) (q + size_stmt i) L1 A1 s K
+    assert (IHL := IHlp r1 c po b (env_after g next i) (next + ndecl i) (q + size_stmt fr i) L1 A1 s K
                         Hm1 (wf_env_after _ _ _ Hwf) ltac:(lia) Hloop).
     destruct (loop n p r1 c po b) as [[o2 r2]| | |]; cbn [bind];
       [|eapply goes_wrong_star; [exact Ho1|exact IHL]|exact I|exact I].
@@ -715,8 +804,8 @@ Proof.
     simpl in Hc. split_code. ok_same L A Hm. eapply x_jmp; eauto.
   - (* SReturn *)
     simpl in Hc. split_code.
-    assert (IHa := IHe r e MVal g q L A s K Hm Hc0).
-    destruct (eval n p r e) as [v| | |]; cbn [bind]; [|exact IHa|exact I|exact I].
+    assert (IHL := IHl r (rev es) g q L A s K Hm Hc0).
+    destruct (eval_list n p r (rev es)) as [vs| | |]; cbn [bind]; [|exact IHL|exact I|exact I].
     ok_same L A Hm. eauto.
   - (* SBlock *)
     simpl in Hc.
@@ -724,11 +813,47 @@ Proof.
     apply block_of_stmt with (k := length r) in IHa; [|exact Hrg].
     eapply stmt_of_block; [apply star_refl|exact IHa| |reflexivity].
     intros L' A'. apply star_refl.
-  - (* SExpr *)
+  - (* SCall *)
     simpl in Hc. split_code.
-    assert (IHa := IHe r e MVal g q L A s K Hm Hc0).
-    destruct (eval n p r e) as [v| | |]; cbn [bind]; [|exact IHa|exact I|exact I].
-    ok_same L A Hm. eapply star_trans; [exact IHa|]. xlast x_drop. pceq.
+    assert (Hcs := call_seq n IHl IHc r es g q L A s K f Hm Hc0 Hc1 Hi).
+    destruct (eval_list n p r es) as [vs| | |]; cbn [bind] in Hcs |- *; [|exact Hcs|exact I|exact I].
+    destruct (call n p f vs) as [rs| | |]; cbn [bind] in Hcs |- *; [|exact Hcs|exact I|exact I].
+    destruct Hcs as [Hn Hst]. rewrite <- Hn in Hc.
+    ok_same L A Hm. eapply star_trans; [exact Hst|].
+    eapply star_eq; [apply x_drops; replace (q + size_args es + length (emit_reverse (length es)) + 1)
+                                      with (S (q + size_args es + length (emit_reverse (length es)))) by lia; exact Hc|].
+    rewrite Hn. pceq.
+  - (* SCallAssign *)
+    simpl in Hc. split_code.
+    assert (Hcs := call_seq n IHl IHc r es g q L A s K f Hm Hc0 Hc1 Hi).
+    destruct (eval_list n p r es) as [vs| | |]; cbn [bind] in Hcs |- *; [|exact Hcs|exact I|exact I].
+    destruct (call n p f vs) as [rs| | |]; cbn [bind] in Hcs |- *; [|exact Hcs|exact I|exact I].
+    destruct Hcs as [_ Hst].
+    destruct (Nat.eqb_spec (length rs) (length xs)) as [Hlx|]; [|exact I]. simpl andb.
+    destruct (Nat.leb_spec (length xs) 255) as [Hle255|]; [|exact I].
+    set (q1 := q + size_args es + length (emit_reverse (length es))) in *.
+    assert (Hrv : star C (St q L A s K) (St (S (S (S q1))) L A (rev rs ++ s) K)).
+    { eapply star_trans; [exact Hst|]. replace (q1 + 1) with (S q1) by lia.
+      apply x_reversen; [rewrite Hlx; exact Hi0|exact Hi1|lia]. }
+    destruct decl.
+    + destruct (stores_decl g (rev xs) (rev rs) r g next (S (S (S q1))) L A s K) as (L' & HL & Hm' & Hst2);
+        auto; [rewrite !rev_length; exact Hlx|].
+      destruct (alloc_results_ext (rev xs) g next) as [ext Hext].
+      ok_post ext L' A.
+      * exact HL.
+      * reflexivity.
+      * rewrite <- Hext. exact Hm'.
+      * intros _. simpl. symmetry. exact Hext.
+      * simpl. eapply star_trans; [exact Hrv|]. eapply star_eq; [exact Hst2|]. rewrite rev_length. unfold q1. pceq.
+    + destruct (assign_results (rev xs) (rev rs) r) as [r'|] eqn:Ea; [|exact I].
+      destruct (stores_assign g next (rev xs) (rev rs) r r' (S (S (S q1))) L A s K) as (L' & A' & HL & HA & Hm' & Hst2);
+        auto; [rewrite !rev_length; exact Hlx|exact (proj1 Hwf)|].
+      ok_post (@nil (ident * slot)) L' A'.
+      * exact HL.
+      * exact HA.
+      * exact Hm'.
+      * intros _. reflexivity.
+      * simpl. eapply star_trans; [exact Hrv|]. eapply star_eq; [exact Hst2|]. rewrite rev_length. unfold q1. pceq.
 Qed.
 
 Lemma sim_loop_step n : sim_all n -> sim_loop (S n).
@@ -749,7 +874,7 @@ Proof.
     destruct (exec n p r b) as [[ob rb]| | |]; cbn [bind] in *;
       [|eapply goes_wrong_star; [exact Hcond|exact IHb]|exact I|exact I].
     destruct IHb as (L1 & A1 & HL1 & HA1 & Hm1 & Ho1). simpl fst in *; simpl snd in *.
-    assert (Hcont : star C (St start L A s K) (St (start + size_expr false c + 1 + size_stmt b) L1 A1 s K) ->
+    assert (Hcont : star C (St start L A s K) (St (start + size_expr false c + 1 + size_stmt fr b) L1 A1 s K) ->
       match bind (exec n p (truncate (length r) rb) po)
               (fun or2 => match fst or2 with
                           | ONormal => loop n p (truncate (length r) (snd or2)) c po b
@@ -758,16 +883,16 @@ Proof.
           exists L' A', length L' = length L /\ length A' = length A /\ menv r' g L' A' /\
             match o with
             | ONormal => star C (St start L A s K)
-                           (St (start + size_expr false c + 1 + size_stmt b + size_stmt po + 1) L' A' s K)
-            | OReturn v => exists qr, nth_error C qr = Some IRet /\ star C (St start L A s K) (St qr L' A' (v :: s) K)
+                           (St (start + size_expr false c + 1 + size_stmt fr b + size_stmt fr po + 1) L' A' s K)
+            | OReturn v => exists qr, nth_error C qr = Some IRet /\ star C (St start L A s K) (St qr L' A' (v ++ s) K)
             | _ => False
             end
       | Fault => goes_wrong C (St start L A s K)
       | _ => True
       end).
     { intros Hat.
-      assert (IHp := IHx (truncate (length r) rb) po g (next + ndecl b) _ (start + size_expr false c + 1 + size_stmt b + size_stmt po + 1)
-                         (start + size_expr false c + 1 + size_stmt b) L1 A1 s K Hm1
+      assert (IHp := IHx (truncate (length r) rb) po g (next + ndecl b) _ (start + size_expr false c + 1 + size_stmt fr b + size_stmt fr po + 1)
+                         (start + size_expr false c + 1 + size_stmt fr b) L1 A1 s K Hm1
                          (wf_mono g next (next + ndecl b) Hwf ltac:(lia)) ltac:(lia) Hc2).
       apply block_of_stmt with (k := length r) in IHp; [|exact Hrg].
       destruct (exec n p (truncate (length r) rb) po) as [[op rp]| | |]; cbn [bind] in *;
@@ -805,49 +930,52 @@ Qed.
 End Sim.
 
 (* ---------- layout of the compiled program ---------- *)
-Lemma length_compile_func fe base f : length (compile_func fe base f) = size_func f.
+Lemma length_compile_func fe fr base f : length (compile_func fe fr base f) = size_func fr f.
 Proof. unfold compile_func, size_func. rewrite !app_length, length_compile_stmt. lia. Qed.
 
-Lemma code_at_funcs fe : forall p base Cpre f fn, length Cpre = base -> nth_error p f = Some fn ->
-  code_at (Cpre ++ compile_funcs fe base p) (nth f (entries base p) 0)
-          (compile_func fe (nth f (entries base p) 0) fn).
+Lemma code_at_funcs fe fr : forall p base Cpre f fn, length Cpre = base -> nth_error p f = Some fn ->
+  code_at (Cpre ++ compile_funcs fe fr base p) (nth f (entries fr base p) 0)
+          (compile_func fe fr (nth f (entries fr base p) 0) fn).
 Proof.
   induction p as [|f0 t IH]; intros base Cpre f fn Hl Hn; [destruct f; discriminate|].
   destruct f as [|f']; simpl in *.
   - inv Hn. apply code_at_self_app.
-  - specialize (IH (base + size_func f0) (Cpre ++ compile_func fe base f0) f' fn).
+  - specialize (IH (base + size_func fr f0) (Cpre ++ compile_func fe fr base f0) f' fn).
     rewrite <- app_assoc in IH. apply IH; auto. rewrite app_length, length_compile_func. lia.
 Qed.
 
 Lemma program_layout p f fn : nth_error p f = Some fn ->
-  code_at (compile_program p) (entry p f) (compile_func (entry p) (entry p f) fn).
-Proof. intros H. apply (code_at_funcs (entry p) p 0 [] f fn eq_refl H). Qed.
+  code_at (compile_program p) (entry p f) (compile_func (entry p) (nres p) (entry p f) fn).
+Proof. intros H. apply (code_at_funcs (entry p) (nres p) p 0 [] f fn eq_refl H). Qed.
+
+Lemma nres_spec p f fn : nth_error p f = Some fn -> nres p f = f_nres fn.
+Proof. unfold nres. intros ->. reflexivity. Qed.
 
 (* the simulation for a call in any context *)
 Lemma call_simulation p f vs s K n :
   match call n p f vs with
-  | Ok v => exists qr L A, nth_error (compile_program p) qr = Some IRet /\
-              star (compile_program p) (St (entry p f) [] [] (vs ++ s) K) (St qr L A (v :: s) K)
+  | Ok rs => exists qr L A, nth_error (compile_program p) qr = Some IRet /\
+               star (compile_program p) (St (entry p f) [] [] (vs ++ s) K) (St qr L A (rs ++ s) K)
   | Fault => goes_wrong (compile_program p) (St (entry p f) [] [] (vs ++ s) K)
   | _ => True
   end.
 Proof.
-  pose proof (sim_all_n p (compile_program p) (entry p) (program_layout p) n) as (_ & _ & Hc & _ & _).
-  apply Hc.
+  pose proof (sim_all_n p (compile_program p) (entry p) (nres p) (program_layout p) (nres_spec p) n) as (_ & _ & Hc & _ & _).
+  specialize (Hc f vs s K). destruct (call n p f vs); auto.
+  destruct Hc as (qr & L & A & H1 & _ & H2). eauto.
 Qed.
 
 (* ---------- the theorem ---------- *)
 Theorem compile_correct p f vs n :
   match run_src n p f vs with
-  | Ok v => exists m, run_tgt (compile_program p) m (entry p f) vs = THalt [v]
+  | Ok rs => exists m, run_tgt (compile_program p) m (entry p f) vs = THalt rs
   | Fault => exists m, run_tgt (compile_program p) m (entry p f) vs = TFault
   | _ => True
   end.
 Proof.
-  pose proof (sim_all_n p (compile_program p) (entry p) (program_layout p) n) as (_ & _ & Hc & _ & _).
-  specialize (Hc f vs [] []). rewrite app_nil_r in Hc. unfold run_src, run_tgt, init_state.
-  destruct (call n p f vs) as [v| | |]; auto.
-  - destruct Hc as (qr & L & A & Hret & Hst). eapply star_run_halt; [exact Hst|].
+  pose proof (call_simulation p f vs [] [] n) as Hc. rewrite app_nil_r in Hc. unfold run_src, run_tgt, init_state.
+  destruct (call n p f vs) as [rs| | |]; auto.
+  - destruct Hc as (qr & L & A & Hret & Hst). rewrite app_nil_r in Hst. eapply star_run_halt; [exact Hst|].
     unfold step. simpl. rewrite Hret. reflexivity.
   - apply goes_wrong_run. exact Hc.
 Qed.
@@ -860,24 +988,24 @@ Proof.
   rewrite <- (run_mono C m2 s r2 H2 N2 (max m1 m2)) by lia. reflexivity.
 Qed.
 
-(* whenever the source run is defined (a value or a division by zero), every run of the compiled code
-   that is given enough steps ends the same way: it halts with exactly that value, or it faults *)
+(* whenever the source run is defined (values or a division by zero), every run of the compiled code
+   that is given enough steps ends the same way: it halts with exactly those values, or it faults *)
 Theorem compile_correct_any_fuel p f vs n m t :
   run_tgt (compile_program p) m (entry p f) vs = t -> t <> TTimeout ->
   match run_src n p f vs with
-  | Ok v => t = THalt [v]
+  | Ok rs => t = THalt rs
   | Fault => t = TFault
   | _ => True
   end.
 Proof.
   intros Ht Hn. pose proof (compile_correct p f vs n) as H.
-  destruct (run_src n p f vs) as [v| | |]; auto; destruct H as [m0 H0]; unfold run_tgt in *.
-  - apply (run_det _ _ m m0 t (THalt [v]) Ht Hn H0). discriminate.
+  destruct (run_src n p f vs) as [rs| | |]; auto; destruct H as [m0 H0]; unfold run_tgt in *.
+  - apply (run_det _ _ m m0 t (THalt rs) Ht Hn H0). discriminate.
   - apply (run_det _ _ m m0 t TFault Ht Hn H0). discriminate.
 Qed.
 
 Theorem compile_fault_iff p f vs n m t :
-  (run_src n p f vs = Fault \/ exists v, run_src n p f vs = Ok v) ->
+  (run_src n p f vs = Fault \/ exists rs, run_src n p f vs = Ok rs) ->
   run_tgt (compile_program p) m (entry p f) vs = t -> t <> TTimeout ->
   (t = TFault <-> run_src n p f vs = Fault).
 Proof.
